@@ -12,6 +12,7 @@ import Qryn.Gen.GrammarFields
 import Qryn.Proofs.PlanClosedX
 import Qryn.Proofs.FormatClosed
 import Qryn.Proofs.SameShape
+import Qryn.Proofs.SameShapeMetric
 import Qryn.Proofs.TempoClosed
 import Qryn.Proofs.RawSqlCensus
 /-! # C10 — request strings can never change the structure of SQL sent to ClickHouse
@@ -453,6 +454,19 @@ theorem same_shape_script (c : LogQL.Ctx) (ms ms' : List LogQL.Matcher) (ss ss' 
   same_shape_same_structure _ _ (LogQL.wf_planScript c ms ss ht h1) (LogQL.wf_planScript c ms' ss' ht h2)
     (LogQL.planScript_sameShape c ms ms' ss ss' hm hs)
 
+/-- **same_shape_metric.** … for EVERY plan of the metric planner model `planMetric` (range aggregations with and without unwrap,
+    the metrics_15s shortcut, by/without, vector aggregations, topk/bottomk, comparisons, step fix, labels join, finalizer):
+    `sameShapeM q₁ q₂` — equal SKELETONS: the queries agree in everything but the contents of matcher names/values, needles,
+    regexes, label-filter values, by/without label names and the unwrap label; kept are operators, functions, durations, `k`,
+    comparison literals, label-filter names and numbers, the literal-regex flag, whether a needle is empty (it decides the
+    15 s shortcut), whether the unwrap label is `_entry`, the number of by/without labels — implies equal token structure.
+    Proof: `shapeS (planMetric c q) = shapeS (planMetric c q.skel)` (the planner looks at a query through its skeleton only),
+    by pushing `shapeS` through every builder of the planner. -/
+theorem same_shape_metric (c : LogQL.MCtx) (q1 q2 : LogQL.MetricQuery) (h : LogQL.MAtomsOK c) (hn1 : LogQL.MetricNamesOK q1)
+    (hn2 : LogQL.MetricNamesOK q2) (hs : LogQL.sameShapeM q1 q2) :
+    kinds (renderSel (LogQL.planMetric c q1)) = kinds (renderSel (LogQL.planMetric c q2)) :=
+  same_shape_same_structure _ _ (LogQL.wf_planMetric c q1 h hn1) (LogQL.wf_planMetric c q2 h hn2) (LogQL.planMetric_sameShape c q1 q2 hs)
+
 /-- … for `match[]` selectors (series) and label-values requests: any two label names, selectors with the same operators -/
 theorem same_shape_series (c : LogQL.Ctx) (ms ms' : List LogQL.Matcher) (ht : LogQL.TablesOK c) (h : LogQL.All2 LogQL.Matcher.same ms ms') :
     kinds (renderSel (LogQL.planSeries c ms)) = kinds (renderSel (LogQL.planSeries c ms')) :=
@@ -696,6 +710,23 @@ example : ¬ LogQL.sameShapeX exQueryX ⟨exQueryX.matchers, exQueryX.stages ++ 
   simp [LogQL.sameShapeX, LogQL.All2, exQueryX] at h
 example : ¬ LogQL.Changer.same (.drop [([97], [])]) (.drop [([97], [98])]) := by
   simp [LogQL.Changer.same, LogQL.All2]
+-- `same_shape_metric`: the metric example and a copy with every string leaf replaced
+private def exMetric' : LogQL.MetricQuery :=
+  .topk ⟨true, 3, .agg ⟨.sum, some ⟨true, ["q", ""]⟩,
+    ⟨.unwrap .rate "z", ⟨[⟨[120], .eq, []⟩, ⟨[], .nre, [97]⟩],
+      [.line ⟨.contains, [97], none⟩, .label (.or (.str "lbl" .neq []) (.num "x_1" .ge ⟨5, [5]⟩)),
+       .line ⟨.nre, [98, 98], some ⟨[], true⟩⟩, .label (.str "a" .re [120])]⟩, 60000000000, none, some ⟨false, ["k"]⟩, some ⟨.gt, ⟨1, [5]⟩⟩⟩,
+    none, none⟩, some ⟨.le, ⟨100, []⟩⟩⟩
+example : LogQL.sameShapeM exMetric exMetric' := by decide +kernel
+private theorem exNames' : LogQL.MetricNamesOK exMetric' := by
+  intro lc h
+  simp [LogQL.labelConds, exMetric', LogQL.MetricQuery.rangeAgg, LogQL.TopInner.rangeAgg] at h
+  rcases h with rfl | rfl
+  · exact ⟨by show LogQL.LabelClass "lbl"; unfold LogQL.LabelClass; decide +kernel,
+      by show LogQL.LabelClass "x_1"; unfold LogQL.LabelClass; decide +kernel⟩
+  · show LogQL.LabelClass "a"
+    unfold LogQL.LabelClass; decide +kernel
+example := same_shape_metric exMCtx exMetric exMetric' ⟨exTablesCluster, by decide +kernel⟩ exNames exNames' (by decide +kernel)
 -- Tempo: hostile tag names / values under all four conditions, every optional clause present
 private def exIdx : Tempo.Idx := ⟨b "`qryn`.tempo_traces_attrs_gin", 1700000000000000000, 1700003600000000000, 1000000, 10000000000, 20, true⟩
 private def exSearch : Tempo.Search := ⟨b "tempo_traces", 20, 1700000000000000000, 1700003600000000000, 1000000, 10000000000⟩
